@@ -12,7 +12,7 @@ local macro "evalm" : tactic => `(tactic|
     runHandler, runHandlerN, tickOr, pushVals, longjmp, thenTick, catchFinish, safeFinish, callFinish, leaveCall, safeCtx,
     restoreContext, popFrame, popN, popStack, afterCatch, popContext, limitBits, handlerRegs, masterVal, enterCall,
     adjustArgs, framesOf, hasReturnTick, depthCheck, setRegister, topBody, topFinish, tmpFinish, loadFinish, dhookFinish,
-    hbOffStep, hbFinish, verbFinish, vitalFinish, runSlotHandler, fixNamesId, dropTop])
+    hbOffStep, hbFinish, verbFinish, vitalFinish, runSlotHandler, fixNamesId, dropTop, handlerFinish])
 
 def okInstalled : Res → Option (List String)
   | .ok m => some m.installed
@@ -156,6 +156,26 @@ def vitalNested : Res :=
 theorem nested_master_destruct_keeps_name :
     (match vitalNested with | .ok m => some (m.masterName, m.out.length) | _ => none) = some (1, 1) := by
   simp [vitalNested, Prog.ofList]; evalm
+
+/-- sort_array inside the comparison callback of a sort_array; the inner callback raises an error that the outer callback
+    catches: the inner context is unlinked by its slot (the list holds the outer context only: the trampoline's global points
+    at the outer sort again), and when the outer sort returns the list is empty -/
+def nestedSort (inner : Prog) : Res :=
+  execCore (.handler 7 (Prog.ofList [.cb .local_ 2 2 (Prog.ofList [.catch_ (Prog.ofList [.handler 8 (Prog.ofList [.cb .local_ 2 2 inner])]),
+    .say "in-outer-callback"])])) { cs := [Frame.mk FK.function {}], ctxs := [Ctx.mk 0 0 0 0 0 0] }
+
+theorem nested_sort_error_unlinks_inner_context :
+    (match nestedSort (Prog.ofList [.raise "*boom"]) with | .ok m => some (m.efunCtx, m.ran, m.vs.length) | _ => none) = some ([], [9], 0) := by
+  simp [nestedSort, Prog.ofList]; evalm
+
+/-- … seen from inside: right after the catch the list holds exactly the outer context -/
+def nestedSortInside : Res :=
+  exec (Prog.ofList [.catch_ (Prog.ofList [.handler 8 (Prog.ofList [.cb .local_ 2 2 (Prog.ofList [.raise "*boom"])])])])
+    { vs := [Slot.handler 8], efunCtx := [8], cs := [Frame.mk FK.function {}], ctxs := [Ctx.mk 0 0 0 0 0 0] }
+
+theorem after_caught_inner_error_the_outer_context_is_current :
+    (match nestedSortInside with | .ok m => some m.efunCtx | _ => none) = some [8] := by
+  simp [nestedSortInside, Prog.ofList]; evalm
 
 /-- a heart beat that raises an error: recovered by the backend's own context (both stacks empty at the next poll point),
     and error_handler has switched the heart beat of that object off -/
